@@ -107,10 +107,6 @@ func (sb *SampleBlock) Populate(ctx context.Context, eds eds.Accessor) error {
 
 func (sb *SampleBlock) UnmarshalFn(root *share.AxisRoots) UnmarshalFn {
 	return func(cntrData, idData []byte) error {
-		if !sb.Container.IsEmpty() {
-			return nil
-		}
-
 		sid, err := shwap.SampleIDFromBinary(idData)
 		if err != nil {
 			return fmt.Errorf("unmarhaling SampleID: %w", err)
